@@ -134,8 +134,10 @@ pub uninterp spec fn count_char(s: Seq<char>, c: char) -> nat;
 pub assume_specification [ str::trim ] (s: &str) -> (r: &str)
     ensures r@ == trimmed(s@);
 
+pub uninterp spec fn enc(v: CV) -> Seq<u8>;
 #[verifier::external_body]
 pub fn into_writer_vec(value: &Value, writer: &mut Vec<u8>) -> (r: core::result::Result<(), cbor::ser::Error<<Vec<u8> as ciborium_io::Write>::Error>>)
+    ensures r is Ok, final(writer)@ == old(writer)@ + enc(vv(*value))
 { cbor::ser::into_writer(value, writer) }
 pub uninterp spec fn parse(b: Seq<u8>) -> Option<(Value, int)>;
 #[verifier::external_body]
